@@ -186,6 +186,36 @@ def search(ctx):
                 tol = 1e-7 if name == "Lens(Mie)" else (1e-9 if "Lens" in name or name == "Multisphere" else 1e-12)
                 if not (dev <= tol * max(1e-30, float(np.abs(want).max()))):
                     ctx.violation("C06:linearity:%s" % name, "field for polarisation (a, b) != (a E_x + b E_y)/|(a, b)| (rel dev %.3g)" % (dev / float(np.abs(want).max())), info)
+            elif i % 9 == 2:
+                # channels labelled by NUMBERS (a wavelength list labels the channels by the wavelengths themselves), scatterer
+                # properties per channel keyed by those numbers, in any unit of length (nanometres ... metres)
+                unit = float(rng.choice([1.0, 1e3, 1e-6, 1e-3, 1e-9 * 1e6, 2.0 ** -20]))
+                nch = int(rng.integers(2, 4))
+                wls = [float(w) * unit for w in rng.permutation([0.405, 0.488, 0.532, 0.66, 0.78])[:nch]]
+                nidx = [float(rng.uniform(1.45, 1.65)) for _ in wls]
+                c = (float(rng.uniform(0, 1)) * unit, float(rng.uniform(0, 1)) * unit, float(rng.uniform(4, 8)) * unit)
+                r = float(rng.uniform(0.3, 0.7)) * unit
+                as_array = bool(rng.integers(0, 2))
+                korder = list(rng.permutation(nch))
+                nval = (xr.DataArray([nidx[j] for j in korder], dims=['illumination'], coords={'illumination': [wls[j] for j in korder]}) if as_array
+                        else {wls[j]: nidx[j] for j in korder})
+                shape = (int(rng.integers(1, 4)), int(rng.integers(1, 4)))
+                det = detector_grid(shape, 0.1 * unit)
+                other = Sphere(n=1.45, r=r, center=(c[0] + 1.3 * unit, c[1] - 0.4 * unit, c[2] + 1.1 * unit))
+                with_other = bool(rng.integers(0, 2))
+                mk_sc = lambda n: Spheres([Sphere(n=n, r=r, center=c), other], warn=False) if with_other else Sphere(n=n, r=r, center=c)
+                info = dict(kind="numeric-channels", unit=unit, wavelens=wls, index=nidx, key_order=[int(j) for j in korder], as_array=as_array, collection=with_other)
+                ctx.tried("numeric-channels", (unit, nch, as_array, with_other, i))
+                fm = calc_field(det, mk_sc(nval), medium_index=1.33, illum_wavelen=wls, illum_polarization=(1, 0), theory=Mie())
+                for w, nn in zip(wls, nidx):
+                    f1 = calc_field(det, mk_sc(nn), medium_index=1.33, illum_wavelen=w, illum_polarization=(1, 0), theory=Mie())
+                    got = fm.sel(illumination=w).transpose('vector', 'x', 'y', 'z').values
+                    want = f1.transpose('vector', 'x', 'y', 'z').values
+                    dev = float(np.abs(got - want).max())
+                    if not (dev <= 1e-11 * float(np.abs(want).max())):
+                        ctx.violation("C06:channels:numeric-labels", "channels labelled by their wavelengths (unit of length %g um): the channel at %r computed with per-channel index %s differs from the single-channel calculation (rel dev %.3g)" % (
+                            unit, w, "labelled array" if as_array else "dictionary", dev / float(np.abs(want).max())), dict(channel=w, **info))
+                        break
             else:
                 # multi-channel == stacked single-channel
                 labels = ["red", "green", "blue"][:int(rng.integers(2, 4))]
